@@ -19,30 +19,49 @@ MaxSize == atoi(IOEnv.MAXSIZE)  \* state constraint on the buffer size
 GEN     == atoi(IOEnv.GEN)      \* 1: carry and print the call history
 FAIL    == atoi(IOEnv.FAIL)     \* 1: allocation requests may be refused
 
-VARIABLES n, hist
-vars == <<abs, impl, n, hist>>
+VARIABLES n, hist, cls
+vars == <<abs, impl, n, hist, cls>>
 
 Off == (-R)..R
 
-Init == AbsInit /\ ImplInit /\ n = 0 /\ hist = <<>>
+Init == AbsInit /\ ImplInit /\ n = 0 /\ hist = <<>> /\ cls = 0
 
-Log(call) == n' = n + 1 /\ hist' = IF GEN = 1 THEN Append(hist, call) ELSE hist
+(* Transition classes (for the transition cover, GEN = 2): which call, where its operand lies   *)
+(* relative to the buffer, and - when the call grows the tape - which of the placement cases of *)
+(* make_accessible applies.  cls = 100 * call + 10 * placement + position.                      *)
+Position(o) ==                      \* of offset o relative to the buffer
+  IF size = 0 THEN 0
+  ELSE IF offset + o < 0 THEN (IF offset + o = -1 THEN 1 ELSE 2)            \* just below / far below
+  ELSE IF offset + o >= size THEN (IF offset + o = size THEN 3 ELSE 4)      \* just above / far above
+  ELSE IF offset + o = 0 THEN 5 ELSE IF offset + o = size - 1 THEN 6 ELSE 7 \* first / last / inner cell
+Placement(s, e) ==                  \* the case of make_accessible(s, e)
+  LET nb == NeededBelow(s)  na == NeededAbove(e)  grow == NewSize(s, e) - size IN
+  IF nb = 0 /\ na = 0 THEN 0
+  ELSE IF nb = 0 THEN 1                                     \* grows above only
+  ELSE IF na = 0 THEN 2                                     \* grows below only
+  ELSE IF MaxI(nb, grow \div 2) = nb /\ nb <= grow - na THEN 3       \* both: needed_below wins
+  ELSE IF grow \div 2 <= grow - na THEN 4                            \* both: half of the growth
+  ELSE 5                                                             \* both: clamped by needed_above
+Class(call, s, e) == 100 * call + 10 * Placement(s, e) + Position(s)
+
+Log(call) == n' = n + 1 /\ hist' = IF GEN >= 1 THEN Append(hist, call) ELSE hist
 
 Live == ~aborted /\ n < Depth
 AllocChoices == IF FAIL = 1 THEN {TRUE, FALSE} ELSE {TRUE}
 
-Mov == \E d \in Off : Live /\ AbsMov(d) /\ ImplMov(d) /\ Log(<<"mov", d>>)
+Mov == \E d \in Off : Live /\ AbsMov(d) /\ ImplMov(d) /\ Log(<<"mov", d>>) /\ cls' = 100 + Position(d)
 Read == \E o \in Off : Live /\ AbsRead(o) /\ UNCHANGED impl /\ Log(<<"read", o, ImplRead(o)>>)
+                      /\ cls' = 200 + Position(o)
 Check == \E o \in Off : Live /\ AbsCheck(o, ImplCheck(o)) /\ UNCHANGED impl
-                       /\ Log(<<"check", o, IF ImplCheck(o) THEN 1 ELSE 0>>)
+                       /\ Log(<<"check", o, IF ImplCheck(o) THEN 1 ELSE 0>>) /\ cls' = 300 + Position(o)
 Write == \E o \in Off, v \in 0..MaxVal, ok \in AllocChoices :
            /\ Live /\ ImplWrite(o, v, ok)
            /\ IF aborted' THEN UNCHANGED abs ELSE AbsWrite(o, v)
-           /\ Log(<<"write", o, v>>)
+           /\ Log(<<"write", o, v>>) /\ cls' = (IF ok THEN Class(4, o, o + 1) ELSE 490)
 MakeAcc == \E s \in Off, e \in Off, ok \in AllocChoices :
            /\ Live /\ ImplMakeAcc(s, e, ok)
            /\ IF aborted' THEN UNCHANGED abs ELSE AbsMakeAcc(s, e)
-           /\ Log(<<"acc", s, e>>)
+           /\ Log(<<"acc", s, e>>) /\ cls' = (IF ok THEN Class(5, s, e) ELSE 590)
 
 Next == Mov \/ Read \/ Check \/ Write \/ MakeAcc
 Spec == Init /\ [][Next]_vars
@@ -76,9 +95,15 @@ AbortIsFinal == [][aborted => FALSE]_vars
 
 SizeBound == size <= MaxSize
 
-\* GEN: one line per complete history
-Emit == (GEN = 1 /\ (n = Depth \/ aborted)) => PrintT(ToJson([hist |-> hist, aborted |-> aborted]))
+\* GEN = 1: one line per complete history
+\* GEN = 2: transition cover - the history of the first (breadth-first, hence shortest) arrival at
+\* every transition class; the VIEW hides the history, so every state is expanded once and keeps
+\* the history of its first arrival; TLC registers remember which classes were printed already
+Emit == /\ (GEN = 1 /\ (n = Depth \/ aborted)) => PrintT(ToJson([hist |-> hist, aborted |-> aborted]))
+        /\ (GEN = 2 /\ cls # 0 /\ ~aborted /\ TLCGet(cls) = 0) =>
+             (TLCSet(cls, 1) /\ PrintT(ToJson([hist |-> hist, cls |-> cls])))
+ASSUME GEN # 2 \/ \A k \in 1..600 : TLCSet(k, 0)
 
 \* hide the history from the fingerprint when only checking
-View == <<abs, impl, n>>
+View == <<abs, impl, n, cls>>
 =============================================================================
